@@ -80,7 +80,9 @@ package goja
 // registers and the frames it pushed are left as they were at the point of the panic, but the
 // markers that existed are still in place and no marker is left behind above them (guarantee side:
 // the ensures_abrupt clauses of every function that pushes a marker).
-//@ abrupthavoc vm.tryStack vm.callStack vm.stash vm.privEnv tryFrame.exception tryFrame.callStackLen tryFrame.iterLen tryFrame.refLen tryFrame.sp tryFrame.stash tryFrame.privEnv tryFrame.catchPos tryFrame.finallyPos tryFrame.finallyRet
+// (The call stack is not in this list: every entry from Go into script records the height in its marker
+// and unwinding cuts the stack back to it, so a panicking callee leaves it as high as it was.)
+//@ abrupthavoc vm.tryStack vm.stash vm.privEnv tryFrame.exception tryFrame.callStackLen tryFrame.iterLen tryFrame.refLen tryFrame.sp tryFrame.stash tryFrame.privEnv tryFrame.catchPos tryFrame.finallyPos tryFrame.finallyRet
 //@ abruptrely *vm vm @markersKept
 //@ abruptrely *vm vm forall k int :: 0 <= k && k < len(vm.tryStack) ==> vm.tryStack[k].sp >= 0
 //@ typeinvq *vm vm forall k int :: 0 <= k && k < len(vm.tryStack) ==> vm.tryStack[k].sp >= 0
@@ -201,6 +203,8 @@ package goja
 
 //@ func (*Runtime).leave
 //@   props C03 C10
+//@   maypanic
+//@   assigns script, r.jobQueue, r.vm.stack
 //@   requires r != nil && r.vm != nil
 //@   loop 1 vars jobs []func()
 //@   loop 1 invariant true [outer]
@@ -319,6 +323,10 @@ package goja
 //@   loop 1 vars ex *Exception
 //@   ensures len(vm.tryStack) == old(len(vm.tryStack)) [marker-popped]
 //@   ensures_abrupt len(vm.tryStack) == old(len(vm.tryStack)) [marker-popped-on-panic]
+// Assumed: a protected run leaves the call stack as high as it found it - calls and returns balance
+// on normal completion, and unwinding cuts it back to the height recorded in the region's marker.
+//@   ensures_assumed len(vm.callStack) == old(len(vm.callStack)) [call-stack-balanced]
+//@   ensures_abrupt_assumed len(vm.callStack) == old(len(vm.callStack)) [call-stack-balanced]
 
 // A call of a script function from Go is a protected region of its own.
 //@ constructor-of Runtime (*Runtime).init
@@ -332,3 +340,35 @@ package goja
 //@   exitvars vm *vm
 //@   ensures vm != nil && len(vm.tryStack) == old(len(vm.tryStack)) [marker-popped]
 //@   ensures_abrupt vm != nil && len(vm.tryStack) == old(len(vm.tryStack)) [marker-popped-on-panic]
+
+// ---- the Go boundary (C03, C15, C01): an interrupt or a stack overflow leaves the runtime as an
+// error value, never as a Go panic; anything else that is not a script exception is re-panicked.
+//@ func asUncatchableException
+//@   props C03 C15
+//@   ensures specIsUncatchable(v) ==> result != nil [interrupts-and-overflows-are-uncatchable]
+//@   assigns nothing
+
+//@ func (*vm).clearStack
+//@   props C03
+//@   requires vm != nil
+//@   loop 1 invariant true [clearing]
+//@   assigns vm.stack, elems(vm.stack)
+
+//@ func (*Runtime).runWrapped
+//@   props C03 C15
+//@   requires r != nil && r.vm != nil
+//@   ensures_abrupt !specIsUncatchable(panicValue) [uncatchable-errors-are-returned-not-panicked]
+
+//@ func (*Runtime).RunProgram
+//@   props C03 C15
+//@   requires r != nil && r.vm != nil && p != nil
+//@   exitvars vm *vm
+//@   ensures_abrupt !specIsUncatchable(panicValue) [uncatchable-errors-are-returned-not-panicked]
+//@   ensures vm != nil && len(vm.callStack) == old(len(vm.callStack)) [call-stack-restored]
+//@   ensures_abrupt vm != nil && len(vm.callStack) == old(len(vm.callStack)) [call-stack-restored-on-panic]
+
+// Assumed: walking an error chain (errors.Unwrap) only reads.
+//@ func isUncatchableException
+//@   props C03 C15
+//@   trusted
+//@   assigns nothing
